@@ -52,6 +52,23 @@ type fTables struct {
 	Dispatch []fDispatch `json:"dispatch"`
 }
 
+// tableSets: the pinned TS 24.501 tables (spec/tables.json) drive generation; if the tables extracted from the
+// source on this run differ, they drive a second pass (inputs shaped by what the code now says).
+func tableSets(dir string) []*fTables {
+	sp := os.Getenv("VERIF_SPEC")
+	if sp == "" {
+		sp = "/verif/spec"
+	}
+	spec := loadTables(sp)
+	cur := loadTables(dir)
+	a, _ := json.Marshal(spec)
+	b, _ := json.Marshal(cur)
+	if string(a) == string(b) {
+		return []*fTables{spec}
+	}
+	return []*fTables{spec, cur}
+}
+
 func loadTables(dir string) *fTables {
 	b, err := os.ReadFile(filepath.Join(dir, "tables.json"))
 	if err != nil {
@@ -342,7 +359,12 @@ func init() {
 
 // table-driven decode inputs: every message x slot x probe length x truncation points, plus malformed streams
 func genCodecDec(g *Gen, w *bufio.Writer) {
-	t := loadTables(g.Facts)
+	for _, t := range tableSets(g.Facts) {
+		genCodecDecT(g, w, t)
+	}
+}
+
+func genCodecDecT(g *Gen, w *bufio.Writer, t *fTables) {
 	emit := func(entry string, b []byte) { fmt.Fprintf(w, "dec %s %s\n", entry, hexs(b)) }
 	fmt.Fprintln(w, "dec plain nil")
 	fmt.Fprintln(w, "dec plain -")
@@ -511,7 +533,12 @@ func genCodecDec(g *Gen, w *bufio.Writer) {
 
 // well-formed messages: enc lines (fields) + the table-rendered wire bytes as dec / rt4 / canon lines
 func genCodecEnc(g *Gen, w *bufio.Writer) {
-	t := loadTables(g.Facts)
+	for _, t := range tableSets(g.Facts) {
+		genCodecEncT(g, w, t)
+	}
+}
+
+func genCodecEncT(g *Gen, w *bufio.Writer, t *fTables) {
 	one := func(fam string, d *fDispatch, c fCase, m *fMsg, present func(j int) bool) {
 		typ, ti, epd := -1, -1, -1
 		if d != nil {
@@ -579,7 +606,12 @@ func genCodecEnc(g *Gen, w *bufio.Writer) {
 
 // exhaustive (discriminator, message type) pairs at both header offsets + all short inputs
 func genDispatch(g *Gen, w *bufio.Writer) {
-	t := loadTables(g.Facts)
+	for _, t := range tableSets(g.Facts) {
+		genDispatchT(g, w, t)
+	}
+}
+
+func genDispatchT(g *Gen, w *bufio.Writer, t *fTables) {
 	// minimal valid bodies per (family, type)
 	body := map[string][]byte{}
 	for _, d := range t.Dispatch {
@@ -645,4 +677,89 @@ func genDispatch(g *Gen, w *bufio.Writer) {
 		}
 	}
 	fmt.Fprintln(w, "encnone")
+}
+
+// ---- C04 streams: the same inputs, per message codec, in the spec's vocabulary ----
+
+func init() {
+	gens["spec"] = genSpec
+}
+
+func genSpec(g *Gen, w *bufio.Writer) {
+	for _, t := range tableSets(g.Facts) {
+		for _, d := range t.Dispatch {
+			for _, c := range d.Decode {
+				m := t.msg(c.Msg)
+				if m == nil {
+					continue
+				}
+				genSpecMsg(g, w, m, c.Const, d.TypeIndex, epdOf(d.Family))
+			}
+		}
+		if m := t.msg("SecurityProtected5GSNASMessage"); m != nil {
+			genSpecMsg(g, w, m, -1, -1, -1)
+		}
+	}
+}
+
+func genSpecMsg(g *Gen, w *bufio.Writer, m *fMsg, typ, ti, epd int) {
+	specVal := func(s *fSlot, v ieVal) ieVal {
+		if s.LenSize > 0 && s.Store == "arr" && s.Span == "toLen" && v.ln <= len(v.data) {
+			v.data = v.data[:v.ln]
+		}
+		return v
+	}
+	reps := g.N
+	for r := 0; r < reps; r++ {
+		man := mandatoryL(g, m, typ, ti, epd, r%3 != 0)
+		opt := make([]*ieVal, len(m.DecOpt))
+		for j := range m.DecOpt {
+			if g.Intn(2) == 0 {
+				s := &m.DecOpt[j]
+				v := s.value(g, g.pickLegal(s), true)
+				opt[j] = &v
+			}
+		}
+		wire := renderMsg(m, man, opt)
+		// canonical: encode side
+		sm := make([]ieVal, len(man))
+		for i := range man {
+			sm[i] = specVal(&m.DecMan[i], man[i])
+		}
+		so := make([]*ieVal, len(opt))
+		for i := range opt {
+			if opt[i] != nil {
+				v := specVal(&m.DecOpt[i], *opt[i])
+				so[i] = &v
+			}
+		}
+		fmt.Fprintf(w, "senc %s %s\n", m.Name, fieldsStr(sm, so))
+		fmt.Fprintf(w, "sdec %s %s\n", m.Name, hexs(wire))
+		// non-canonical: shuffled optionals, duplicates, unknown octets, boundary lengths, truncations
+		b := renderMsg(m, man, nil)
+		k := g.Intn(6)
+		for j := 0; j < k && len(m.DecOpt) > 0; j++ {
+			s := &m.DecOpt[g.Intn(len(m.DecOpt))]
+			l := g.pickLegal(s)
+			if g.Intn(5) == 0 {
+				pl := s.probeLens()
+				l = pl[g.Intn(len(pl))]
+				if l > 600 {
+					l = g.pickLegal(s)
+				}
+			}
+			v := s.value(g, l, true)
+			if s.Store == "arr" && s.Span == "toLen" && l > s.ArrN {
+				continue
+			}
+			b = append(b, s.render(v, true)...)
+			if g.Intn(5) == 0 {
+				b = append(b, byte(g.Intn(256)))
+			}
+		}
+		if g.Intn(3) == 0 && len(b) > 0 {
+			b = b[:g.Intn(len(b)+1)]
+		}
+		fmt.Fprintf(w, "sdec %s %s\n", m.Name, hexs(b))
+	}
 }
